@@ -119,6 +119,8 @@ class Exec:
         name = t.split("::")[-1]
         if name in self.ctx.consts:
             return self.eval_const(name)
+        if re.match(r"^[\w:<>', ]+$", t):
+            return ("opq", "const:" + t)   # a named constant of a type the checks do not compute with
         raise Unsupported("constant: " + text)
 
     def eval_const(self, name):
@@ -149,6 +151,9 @@ class Exec:
         if m:
             if place not in env:
                 ty = self.fn.locals.get(place, "?")
+                if getattr(self, "havoc", False) and ty != "?":
+                    env[place] = self.typed_fresh(f"{self.fn.name.split('::')[-1]}:{place}", ty)
+                    return env[place]
                 raise Unsupported(f"read of unassigned local {place}: {ty} in {self.fn.name}")
             return env[place]
         if place.startswith("(") and place.endswith(")"):
@@ -211,6 +216,8 @@ class Exec:
         m = re.match(r"^(AddWithOverflow|SubWithOverflow|MulWithOverflow)\((.*)\)$", rv)
         if m:
             a, b = [self.operand(env, x) for x in split_top(m.group(2))]
+            if a[0] != "bv" or b[0] != "bv":
+                raise Unsupported("checked arithmetic on a non-integer value: " + rv)
             w = a[2]
             ea, eb = f"((_ zero_extend {w}) {a[1]})", f"((_ zero_extend {w}) {b[1]})"
             if m.group(1) == "AddWithOverflow":
@@ -302,6 +309,11 @@ class Exec:
             parts = split_top(rv[1:-1])
             if all(p.startswith(("copy ", "move ", "const ")) for p in parts):
                 return ("tuple", [self.operand(env, p) for p in parts])   # tuple aggregate
+        m = re.match(r"^([\w:<>', ]+)::([A-Z]\w*)(?:\((.*)\))?$", rv)
+        if m and not rv.startswith(("copy ", "move ", "const ")):
+            # enum variant aggregate of a type the checks do not reason about: opaque, keyed by its operands
+            ops = [self.key(self.operand(env, o)) for o in split_top(m.group(3))] if m.group(3) else []
+            return ("opq", f"variant:{m.group(1).split('::')[-1]}::{m.group(2)}({','.join(ops)})")
         if re.match(r"^[\w:<>]+ \{.*\}$", rv):
             return ("opq", "aggr:" + rv.split(" {")[0])   # struct / enum-struct-variant aggregate
         m = re.match(r"^(Div|Rem)\((.*)\)$", rv)
@@ -320,9 +332,14 @@ class Exec:
         return bool(m)
 
     # ---------------------------------------------------------------- execution
-    def run(self, start="bb0", stop_at=None, env=None):
-        """stop_at: block name; reaching it records (pc, env) in self.stops instead of executing it"""
+    def run(self, start="bb0", stop_at=None, env=None, havoc_unassigned=False, cut_loops=False):
+        """stop_at: block name; reaching it (after at least one step) records (pc, env) in self.stops
+        instead of executing it.  havoc_unassigned: a local read before any assignment on this path
+        (defined before the fragment) is a fresh symbol of its declared type."""
         self.stop_at = stop_at
+        self.havoc = havoc_unassigned
+        self.cut_loops = cut_loops
+        self.cuts = []
         self.stops = []
         e = dict(self.env0)
         if env:
@@ -331,11 +348,20 @@ class Exec:
         return self
 
     def _block(self, bb, env, pc, steps):
-        if steps > 400:
+        if steps > 600:
             raise Unsupported("path too long (loop?) in " + self.fn.name)
-        if getattr(self, "stop_at", None) == bb:
+        if getattr(self, "stop_at", None) == bb and steps > 0:
             self.stops.append((list(pc), dict(env)))
             return
+        if getattr(self, "cut_loops", False):
+            seen = env.get("#visited", ())
+            if bb in seen:
+                # inner loop: the path is cut at the back edge (the zero-iteration exit was explored
+                # from the first visit); recorded so that specs can still inspect the calls made
+                self.cuts.append((list(pc), dict(env)))
+                return
+            env = dict(env)
+            env["#visited"] = seen + (bb,)
         blk = self.fn.blocks[bb]
         for st in blk["stmts"]:
             st = st.rstrip(";").strip() if not st.endswith("];") else st.rstrip(";").strip()
@@ -358,6 +384,14 @@ class Exec:
                 taken = []
                 for arm in arms:
                     k, tgt = [x.strip() for x in arm.split(":")]
+                    if v[0] == "bool" and v[1] in ("true", "false"):
+                        # concrete condition: follow only the arm that is taken
+                        is_true = v[1] == "true"
+                        if (k == "otherwise" and not is_true and any(a.split(":")[0].strip() == "0" for a in arms)) or \
+                           (k == "0" and is_true) or (k not in ("0", "otherwise") and not is_true):
+                            if k != "otherwise":
+                                taken.append("true" if (int(k) != 0) == is_true else "false")
+                            continue
                     if k == "otherwise":
                         cond = "(and " + " ".join(f"(not {c})" for c in taken) + ")" if len(taken) > 1 else (f"(not {taken[0]})" if taken else "true")
                     else:
